@@ -15,7 +15,7 @@
 const char *target_name = "avl";
 
 enum { L_ROT_L, L_ROT_R, L_ROT_LR, L_ROT_RL, L_DEL_LEAF, L_DEL_ONE_CHILD, L_DEL_TWO_LEFT_VICTIM, L_DEL_TWO_RIGHT_VICTIM,
-       L_DUP_INSERT, L_MULTI_REBALANCE, L_EMPTY_AGAIN, L_WALK, L_DEL_ROOT, L_HEIGHT_GE5 };
+       L_DUP_INSERT, L_MULTI_REBALANCE, L_EMPTY_AGAIN, L_WALK, L_DEL_ROOT, L_HEIGHT_GE5, L_CMP_DIFFERENCE, L_FOR_EACH_SAFE_DELETE };
 
 #define MAXK 512
 struct knode { struct iv_avl_node an; int key; };
@@ -23,9 +23,13 @@ static struct knode *node_of[MAXK];       /* live node for key, NULL if absent *
 static struct iv_avl_tree tree;
 static long ops_done;
 
+/* the comparator follows the usual C contract (negative / zero / positive, as qsort and strcmp do): cmp_scale 0 gives exactly
+ * -1/0/1, otherwise the key difference times cmp_scale */
+static int cmp_scale;
 static int cmp(const struct iv_avl_node *a, const struct iv_avl_node *b)
 {
 	int ka = ((const struct knode *)a)->key, kb = ((const struct knode *)b)->key;   /* an is the first member */
+	if (cmp_scale) return (ka - kb) * cmp_scale;
 	return ka < kb ? -1 : ka > kb ? 1 : 0;
 }
 
@@ -225,11 +229,35 @@ static void run_random(void)
 	INIT_IV_AVL_TREE(&tree, cmp);
 	int range = (int[]){ 8, 24, 64, 200, MAXK - 1 }[ch_n(5)];
 	int present = 0;
+	cmp_scale = (int[]){ 0, 0, 1, 2, 1000, 1000000 }[ch_n(6)];
+	if (cmp_scale) vz_label(L_CMP_DIFFERENCE);
 	vz_log("history over keys [0,%d):", range);
 	vz_hash_u(range);
 	while (!ch_exhausted() && ops_done < 6000) {
-		unsigned op = ch_n(8);
+		unsigned op = ch_n(9);
 		int key = ch_n(range);
+		if (op == 8) {
+			/* traversal with the iterator macros; the _safe one with a body that deletes (and frees) the node it stands on */
+			int mod = 1 + ch_n(5), rem = ch_n(mod), del = ch_n(2);
+			struct iv_avl_node *an, *an2;
+			int last = -1, seen = 0;
+			if (ops_done < 200) vz_log(" for_each%s (key %% %d == %d)", del ? "_safe deleting" : "", mod, rem);
+			vz_hash_u(0x10000 + mod * 16 + rem * 2 + del);
+			if (!del) {
+				iv_avl_tree_for_each (an, &tree) { int k = ((struct knode *)an)->key; if (k <= last) FAIL("for-each-order", "iv_avl_tree_for_each visits %d after %d", k, last); last = k; if (++seen > present) break; }
+				if (seen != present) FAIL("for-each-count", "iv_avl_tree_for_each visited %d of %d nodes", seen, present);
+			} else {
+				int expect = present;
+				iv_avl_tree_for_each_safe (an, an2, &tree) {
+					int k = ((struct knode *)an)->key;
+					if (k <= last) FAIL("for-each-safe-order", "iv_avl_tree_for_each_safe visits %d after %d", k, last);
+					last = k; if (++seen > expect) break;
+					if (k % mod == rem) { op_delete(k, 1); present--; vz_label(L_FOR_EACH_SAFE_DELETE); }
+				}
+				if (seen != expect) FAIL("for-each-safe-count", "iv_avl_tree_for_each_safe with a deleting body visited %d of %d nodes", seen, expect);
+			}
+			continue;
+		}
 		if (op <= 3) {
 			if (!node_of[key]) present++;
 			if (ops_done < 200) vz_log(" insert %d%s", key, node_of[key] ? " (duplicate)" : "");
@@ -266,8 +294,69 @@ static void run_random(void)
 		vz_nontrivial();
 }
 
+/* ------------------------------------------------------------------ large populations (heights far beyond the exhaustive range) */
+static struct knode *big_nodes; static unsigned char *big_present; static long big_n;
+static long big_walk(struct iv_avl_node *n, struct iv_avl_node *parent, long lo, long hi, long *count)
+{
+	if (!n) return 0;
+	struct knode *k = (struct knode *)n;
+	if (n->parent != parent) FAIL("parent-link", "large tree: node %d has a wrong parent pointer", k->key);
+	if (k->key <= lo || k->key >= hi) FAIL("bst-order", "large tree: node %d outside (%ld,%ld)", k->key, lo, hi);
+	if (k->key < 0 || k->key >= big_n || !big_present[k->key]) FAIL("foreign-node", "large tree: node %d is not in the model", k->key);
+	if (++*count > big_n + 1) FAIL("cycle", "large tree: walk does not terminate");
+	long hl = big_walk(n->left, n, lo, k->key, count), hr = big_walk(n->right, n, k->key, hi, count);
+	long h = 1 + (hl > hr ? hl : hr);
+	if (n->height != h) FAIL("height-field", "large tree: node %d records height %d, real height %ld", k->key, n->height, h);
+	if (hl - hr > 1 || hr - hl > 1) FAIL("unbalanced", "large tree: node %d has subtree heights %ld/%ld", k->key, hl, hr);
+	return h;
+}
+static long big_check(const char *ctx)
+{
+	long count = 0, expect = 0;
+	long h = big_walk(tree.root, NULL, -1, big_n, &count);
+	for (long k = 0; k < big_n; k++) expect += big_present[k];
+	if (count != expect) FAIL("node-set", "%s: large tree holds %ld nodes, model %ld", ctx, count, expect);
+	long c2 = 0; int last = -1;
+	for (struct iv_avl_node *n = iv_avl_tree_min(&tree); n; n = iv_avl_tree_next(n)) { int key = ((struct knode *)n)->key; if (key <= last) FAIL("forward-traversal", "%s: forward traversal not increasing at %d", ctx, key); last = key; if (++c2 > expect) break; }
+	if (c2 != expect) FAIL("forward-traversal", "%s: forward traversal visits %ld of %ld nodes", ctx, c2, expect);
+	c2 = 0; last = big_n;
+	for (struct iv_avl_node *n = iv_avl_tree_max(&tree); n; n = iv_avl_tree_prev(n)) { int key = ((struct knode *)n)->key; if (key >= last) FAIL("backward-traversal", "%s: backward traversal not decreasing at %d", ctx, key); last = key; if (++c2 > expect) break; }
+	if (c2 != expect) FAIL("backward-traversal", "%s: backward traversal visits %ld of %ld nodes", ctx, c2, expect);
+	return h;
+}
+static void run_big(void)
+{
+	big_n = 20000 + ch_n(4) * 15000;
+	big_nodes = calloc(big_n, sizeof *big_nodes); big_present = calloc(big_n, 1);
+	INIT_IV_AVL_TREE(&tree, cmp);
+	int pattern = ch_n(4);      /* 0 ascending, 1 descending, 2 pseudo-random, 3 ascending then delete every other, then random refill */
+	unsigned long x = 88172645463325252ull ^ ch_byte();
+	long maxh = 0;
+	vz_hash_u(big_n * 4 + pattern);
+	for (long i = 0; i < big_n; i++) {
+		long key = pattern == 0 || pattern == 3 ? i : pattern == 1 ? big_n - 1 - i : (long)((x = x * 6364136223846793005ull + 1442695040888963407ull) >> 33) % big_n;
+		struct knode *k = &big_nodes[key];
+		k->key = key;
+		int r = iv_avl_tree_insert(&tree, &k->an);
+		if (big_present[key]) { if (r != -1) FAIL("duplicate-accepted", "large tree: duplicate insert of %ld returned %d", key, r); }
+		else { if (r) FAIL("insert-refused", "large tree: insert of %ld returned %d", key, r); big_present[key] = 1; }
+		ops_done++;
+		if ((i & 4095) == 4095) { long h = big_check("during inserts"); if (h > maxh) maxh = h; }
+	}
+	if (pattern == 3) {
+		for (long key = 0; key < big_n; key += 2) if (big_present[key]) { iv_avl_tree_delete(&tree, &big_nodes[key].an); big_present[key] = 0; ops_done++; if ((key & 8191) == 0) big_check("during deletes"); }
+		for (long i = 0; i < big_n / 2; i++) { long key = (long)((x = x * 6364136223846793005ull + 1442695040888963407ull) >> 33) % big_n; if (!big_present[key]) { big_nodes[key].key = key; if (iv_avl_tree_insert(&tree, &big_nodes[key].an)) FAIL("insert-refused", "large tree: re-insert refused"); big_present[key] = 1; ops_done++; } }
+	}
+	long h = big_check("at the end"); if (h > maxh) maxh = h;
+	vz_log("large tree: %ld keys, pattern %d, height %ld, %ld operations", big_n, pattern, maxh, ops_done);
+	if (maxh >= 16) vz_label(L_HEIGHT_GE5);
+	vz_count(0, ops_done); vz_count(2, maxh);
+	vz_nontrivial();
+}
+
 void target_run(void)
 {
+	if (!strcmp(vz_param("mode", "rand"), "big")) { run_big(); return; }
 	if (!strcmp(vz_param("mode", "rand"), "exh")) run_exhaustive();
 	else run_random();
 }
